@@ -49,12 +49,13 @@ Exec(x, i) ==
     [] i.k = "lsd"  -> ExecLSD(x, i)
     [] i.k = "ldm"  -> ExecLDM(x, i)
     [] i.k = "stm"  -> ExecSTM(x, i)
+    [] i.k = "coproc" -> ExecCoproc(x, i)
     [] i.k = "udf"  -> Raise(x, "undef")
     [] i.k = "svc"  -> Raise(x, "svc")
     [] OTHER -> NotImpl(x, "spec-missing:" \o i.k)
 Executable == {"dp", "adr", "movw", "movt", "b", "bl", "blxr", "bx", "cbz", "it", "udf", "svc", "ls", "lsd", "ldm", "stm", "tb",
                "msr", "mrs", "cps", "setend", "hint", "excret", "rfe", "srs", "ldmx", "stmu", "smc",
-               "mul", "hmul", "div", "qarith", "sat", "par", "misc"}
+               "mul", "hmul", "div", "qarith", "sat", "par", "misc", "coproc"}
 
 \* the fetch: act = [n |-> "Step"] reads memory at PC; act = [n |-> "Exec", w, len] uses the given word
 FetchInstr(x, act) ==
